@@ -908,7 +908,8 @@ class BlockNode(AstNode, NamespaceMixin):
         self.classes = parent.classes
         self.enums = parent.enums
         self.functions = parent.functions
-        self.namespaces = parent.namespaces
+        # A class has no nested namespaces.
+        self.namespaces = getattr(parent, "namespaces", [])
         self.typedefs = parent.typedefs
         self.variables = parent.variables
         self.scope = parent.scope
